@@ -314,7 +314,27 @@ class Module:
     constants: dict[str, ast.expr] = field(default_factory=dict)
 
 
-_TREE_CACHE: dict = {}
+_TREE_CACHE: dict = {}          # relpath -> list of (key, entry); the first entry (normally the unmodified tree) is kept, later ones LRU
+_TREE_CACHE_VARIANTS = 2
+
+
+def _cache_get(rel, key):
+    slots = _TREE_CACHE.get(rel)
+    if not slots:
+        return None
+    for i, (k, entry) in enumerate(slots):
+        if k == key:
+            if i > 0:
+                slots.append(slots.pop(i))
+            return entry
+    return None
+
+
+def _cache_put(rel, key, entry) -> None:
+    slots = _TREE_CACHE.setdefault(rel, [])
+    slots.append((key, entry))
+    while len(slots) > 1 + _TREE_CACHE_VARIANTS:
+        del slots[1]
 
 
 class Repo:
@@ -361,19 +381,32 @@ class Repo:
         sources: dict[str, str] = {}
         for rel in self._iter_files(include_tests):
             if rel in self.overrides:
-                sources[rel] = self.overrides[rel]
+                if self.overrides[rel] is not None:          # None: the variant deletes the file
+                    sources[rel] = self.overrides[rel]
             else:
                 with open(os.path.join(self.root, rel), encoding="utf-8") as fh:
                     sources[rel] = fh.read()
+        # files that exist only in the variant under analysis (a helper moved into a new module)
+        test_dir = os.path.join("ipv8", "test") + os.sep
+        for rel, text in self.overrides.items():
+            if text is not None and rel not in sources and rel.endswith(".py") and (rel.startswith("ipv8" + os.sep) or rel == "ipv8_service.py") \
+                    and (include_tests or not rel.startswith(test_dir)):
+                sources[rel] = text
+        sources = dict(sorted(sources.items(), key=lambda kv: (kv[0] == "ipv8_service.py", kv[0].split(os.sep)[:-1], kv[0])))
         # names called (or imported) per file: a helper that another file calls must keep its definition when the normaliser inlines it
         called: dict[str, set[str]] = {rel: set(_re.findall(r"\b([A-Za-z_]\w*)\s*\(", src)) | set(_re.findall(r"import\s+([^\n]+)", src) and
                                                  _re.findall(r"\b([A-Za-z_]\w*)\b", " ".join(_re.findall(r"import\s+([^\n]+)", src))))
                                        for rel, src in sources.items()}
+        # method names defined per file ("def " + name): a new method that a class in another file also defines is not inlined
+        mdefs: dict[str, set[str]] = {rel: {"def " + n for n in _re.findall(r"^[ \t]+(?:async[ \t]+)?def[ \t]+([A-Za-z_]\w*)", src, _re.M)}
+                                      for rel, src in sources.items()}
+        for rel in called:
+            called[rel] |= mdefs[rel]
         for rel, src in sources.items():
             path = os.path.join(self.root, rel)
             external = set().union(*(v for k, v in called.items() if k != rel)) if len(called) > 1 else set()
             key = (rel, self.recover_names, hash(src), hash(frozenset(external)) if "def " in src else 0)
-            cached = _TREE_CACHE.get(key)
+            cached = _cache_get(rel, key)
             if cached is not None and cached[0] == src:
                 tree = cached[1]
                 self.renamed_locals += cached[2]
@@ -395,7 +428,7 @@ class Repo:
                     self.renamed_locals += n
                 set_parents(tree)
                 # rules never mutate syntax trees, so a parsed + normalised tree is shared by every Repo of this process
-                _TREE_CACHE[key] = (src, tree, n)
+                _cache_put(rel, key, (src, tree, n))
             modname = rel[:-3].replace(os.sep, ".")
             if modname.endswith(".__init__"):
                 modname = modname[: -len(".__init__")]
